@@ -242,7 +242,7 @@ def run(ctx):
         elines.append("E " + dump(rng, rand_string(rng))[1:-1])
     lines = plines + klines + elines
     exp = common.driver(["json"], lines)
-    got = common.harness(["json"], lines)
+    got = common.harness(["json"], lines, timeout=240)
     distinct = set()
     kinds = {"P": 0, "K": 0, "E": 0, "Y": 0}
     stats = {"index_keys": 0, "escaped_strings": 0, "max_depth": 100, "numbers": 0}
@@ -284,7 +284,7 @@ def run(ctx):
     cyc = ["Y const a: any = {x: 1}; a.self = a; JSON.stringify(a);",
            "Y const a: any = [1]; const b: any = {a}; a.push(b); JSON.stringify({top: a});",
            "Y const a: any = {}; const b: any = {a}; const c: any = {b}; a.c = c; JSON.stringify([c]);"]
-    goty = common.harness(["json"], ylines_h + cyc)
+    goty = common.harness(["json"], ylines_h + cyc, timeout=240)
     expy = common.driver(["jsonext"], ylines_d)
     for v, hl, g, e in zip(ys, ylines_h, goty, expy):
         ctx.cov["evaluations"] += 1
@@ -331,7 +331,7 @@ def run(ctx):
         decl = " ".join("const s%d: any = %s;" % (i, js_src(c)) for i, c in enumerate(comps))
         shared_lines.append("Y %s const v: any = %s; JSON.stringify(v) + \"\";" % (decl, src(top)))
         shared_vals.append(expand(top))
-    gots = common.harness(["json"], shared_lines)
+    gots = common.harness(["json"], shared_lines, timeout=240)
     for v, hl, g in zip(shared_vals, shared_lines, gots):
         ctx.cov["evaluations"] += 1
         kinds["Y"] += 1
